@@ -147,6 +147,8 @@ def alphabet(sub="all", phstat=False):
     ops.append("temp:60")
     if sub == "attach":
         return [o for o in ops if o in ATTACH][:10]
+    if sub == "models":     # what a database without redox couples and without the Hfo surface (pitzer.dat, sit.dat) can run
+        return [o for o in ops if not o.startswith("su:") and not o.startswith("rx:O2:")]
     if sub == "light":      # without the three ops that cost most in the 7-reactant cell (Borkovec-Westall integration, Guggenheim ss)
         return [o for o in ops if o not in ("su:dl-new", "su:dl-equil", "ss:nonideal")]
     return ops
@@ -285,9 +287,9 @@ def pending_dl_water(blocks, gfw, n=1):
     return {"H": 2.0 * w * 1000.0 / gfw, "O": w * 1000.0 / gfw}, w
 
 
-def judge(op, spec, before_blocks, after_blocks, db, problems, diags, tag):
+def judge(op, spec, before_blocks, after_blocks, db, problems, diags, tag, dbname=DBNAME):
     inv0 = raw.inventory(before_blocks, db, 1, spec["mix"])
-    dlw, kg = pending_dl_water(before_blocks, water_gfw(phr.dbpath(DBNAME)))
+    dlw, kg = pending_dl_water(before_blocks, water_gfw(phr.dbpath(dbname)))
     for e, v in dlw.items():
         inv0[e] = inv0.get(e, 0.0) + v
     if kg:
@@ -405,10 +407,10 @@ def classify(op, spec, bad, before_blocks, after_blocks, db):
 
 
 # ------------------------------------------------------------------------------------------------ running one history
-def run_history(s, init, mode, ops, judge_from=None):
+def run_history(s, init, mode, ops, judge_from=None, dbname=DBNAME):
     """Replays the history on a freshly loaded instance.  Returns dict(completed, problems, diags, key, sample...).
     Transitions with index >= judge_from are judged (default: only the last one)."""
-    db = raw.load_db(phr.dbpath(DBNAME))
+    db = raw.load_db(phr.dbpath(dbname))
     r = s.run(INIT[init] + "DUMP\n -all\nEND\n", strings="d")
     if r["rc"] != 0:
         raise RuntimeError("initial simulation fails: %s" % r["err"][:300])
@@ -442,8 +444,8 @@ def run_history(s, init, mode, ops, judge_from=None):
         dump_text = r["dump"]
         if i >= judge_from:
             sys_crosscheck(op, r, after, db, diags)
-            tag = "history: init=%s mode=%s ops=%s ; judged transition %d (%s)" % (init, mode, " ".join(ops), i + 1, op)
-            inv0, inv1, exp, worst = judge(op, spec, blocks, after, db, problems, diags, tag)
+            tag = "history: %sinit=%s mode=%s ops=%s ; judged transition %d (%s)" % ("" if dbname == DBNAME else "database=%s " % dbname, init, mode, " ".join(ops), i + 1, op)
+            inv0, inv1, exp, worst = judge(op, spec, blocks, after, db, problems, diags, tag, dbname)
             last = {"op": op, "worst_rel": worst, "before": inv0, "after": inv1, "expected": exp}
         blocks = after
     return {"completed": True, "problems": problems, "diags": diags, "nrun": nrun, "key": core.sha(raw.canonical(dump_text, 12)),
@@ -452,8 +454,8 @@ def run_history(s, init, mode, ops, judge_from=None):
 
 def run_case(case):
     try:
-        s = phr.Session(DBNAME)      # driver reset + new instance + database: the command log (= replay artefact) is this case only
-        res = run_history(s, case["init"], case["mode"], case["ops"], case.get("judge_from"))
+        s = phr.Session(case.get("db", DBNAME))      # driver reset + new instance + database: the command log (= replay artefact) is this case only
+        res = run_history(s, case["init"], case["mode"], case["ops"], case.get("judge_from"), case.get("db", DBNAME))
     except (drv.DrvDied, drv.DrvTimeout) as e:
         # a crash / hang of the library is not a run that "completes without error": outside this statement (C08's
         # subject), counted as not completed and shown in the evidence with the driver's command log
@@ -466,6 +468,8 @@ def run_case(case):
         out["script"] = s.d.script()          # the replay artefact; only kept for candidates (memory of the explorer)
     seen = set()
     for fp, what in res["problems"]:
+        if case.get("db", DBNAME) != DBNAME:
+            fp += " db=%s" % case["db"]
         if fp not in seen:
             seen.add(fp)
             out["problems"].append((fp, what))
@@ -547,12 +551,12 @@ MAX_NEW = 6         # new (not known) fingerprints replayed and reported per run
 SPLIT = 2500        # a level with more histories than this is cut into one sub-bound per first op (deadline granularity)
 
 
-def bfs(name, init, mode, ops, depth, ev, findings, pool, deadline, stats):
+def bfs(name, init, mode, ops, depth, ev, findings, pool, deadline, stats, db=None):
     """Bound-major BFS: level k = every completed, distinct state of level k-1 extended by every op.  The deadline is
     looked at only between bounds (a level, or for a big level the sub-bound of all histories that start with one op)."""
     frontier = [()]
     for k in range(1, depth + 1):
-        cases = [{"init": init, "mode": mode, "ops": list(seq) + [op]} for seq in frontier for op in ops]
+        cases = [dict({"init": init, "mode": mode, "ops": list(seq) + [op]}, **({"db": db} if db else {})) for seq in frontier for op in ops]
         lname = "%s: init=%s mode=%s depth %d" % (name, init, mode, k)
         if len(cases) > SPLIT:
             groups = [("%s, histories starting with %s" % (lname, o), [c for c in cases if c["ops"][0] == o]) for o in ops]
@@ -616,6 +620,10 @@ def run(tier):
                [("full alphabet", "plain", m, allops, 3) for m in ("use", "cells")]
     for name, init, mode, ops, depth in plan:
         bfs(name, init, mode, ops, depth, ev, findings, pool, dl, stats)
+    # the specific-ion-interaction databases drive the same steps through model_pz / model_sit
+    for db in ("pitzer.dat", "sit.dat"):
+        for m in (("use",) if tier == "quick" else ("use", "cells")):
+            bfs("%s alphabet" % db, "plain", m, alphabet("models"), 2, ev, findings, pool, dl, stats, db=db)
     pool.close()
     total = stats["completed"] + stats["not_completed"]
     ev.extra["alphabet"] = {"ops": allops, "attach_sub_alphabet": alphabet("attach"), "light_sub_alphabet_(quick, 7-reactant cell)": alphabet("light"), "inits": sorted(INIT), "modes": ["use (USE..SAVE)", "cells (RUN_CELLS)"]}
